@@ -198,6 +198,17 @@ func (s *Sim) logLocked(ev string) {
 	}
 }
 
+// EventCount is the number of events logged so far (a global sequence number usable as a
+// common time axis for deliveries and output writes).
+//
+//go:norace
+func (s *Sim) EventCount() int {
+	s.lock()
+	n := s.nEvents
+	s.unlock()
+	return n
+}
+
 // Digest is the hash of the full event log so far.
 func (s *Sim) Digest() string {
 	s.lock()
